@@ -702,6 +702,16 @@ def run(ctx):
     ac = hooks.ac
     for _, rng in ctx.cases("arrays", ctx.budget(50000, 900000)):
         ctx.run_case(array_case, ctx, rng)
+    if not hasattr(ac, "calc_reshape_args"):
+        # the axis-matching routine is an internal function: if the library no longer has it
+        # under this name, only the array-level streams (public reshape) run
+        hooks._missing("routine")
+        for _, rng in ctx.cases("many-legs", ctx.budget(3000, 60000)):
+            ctx.run_case(many_legs_case, ctx, rng)
+        for _, rng in ctx.cases("chains", ctx.budget(4000, 80000)):
+            ctx.run_case(chain_case, ctx, rng)
+        hooks.uninstall()
+        return
     # exhaustive routine box
     shapes = [s for n in range(0, 6) for s in itertools.product([1, 2, 3, 4, 6], repeat=n)]
     for k, shape in enumerate(shapes):
